@@ -25,13 +25,63 @@ import (
 const profilerUid = 60001 // absent from /etc/passwd: os/user falls back to $HOME
 
 type profRig struct {
-	dir      string // root of this rig (world-writable)
-	home     string
-	bindir   string // contains the fake `go`
-	nogo     string // empty dir: PATH for "tool missing"
-	binary   string // the ELF handed to the profiler
-	listing  string // file the fake tool prints
-	profiler string
+	dir        string // root of this rig (world-writable)
+	home       string
+	bindir     string // contains the fake `go`
+	nogo       string // empty dir: PATH for "tool missing"
+	binary     string // the ELF handed to the profiler
+	listing    string // file the fake tool prints
+	profiler   string
+	cacheMount string // if set: the cache directory is a tmpfs mount of its own
+	tmpdir     string // if set: TMPDIR of the profiler, a directory on another file system than its home (renames between
+	// the two fail with EXDEV)
+}
+
+// useOtherTmp gives the profiler a TMPDIR on /dev/shm (a tmpfs, hence another file system than the rig). It reports
+// whether that was possible.
+func (r *profRig) useOtherTmp() bool {
+	var a, b syscall.Stat_t
+	if syscall.Stat("/dev/shm", &a) != nil || syscall.Stat(r.dir, &b) != nil || a.Dev == b.Dev {
+		return false
+	}
+	d, err := os.MkdirTemp("/dev/shm", "verif-proftmp")
+	if err != nil {
+		return false
+	}
+	os.Chmod(d, 0o777)
+	r.tmpdir = d
+	return true
+}
+
+// mountCache puts the profiler's cache directory on a file system of its own (tmpfs) whose size can be changed: the
+// "disk full" fault. It needs root and a permitted mount(2); it reports whether it worked. close() unmounts.
+func (r *profRig) mountCache() bool {
+	d := filepath.Join(r.home, ".seccomp-profiler")
+	if err := os.MkdirAll(d, 0o777); err != nil {
+		return false
+	}
+	if err := syscall.Mount("tmpfs", d, "tmpfs", 0, "size=64m,mode=0777"); err != nil {
+		return false
+	}
+	os.Chmod(d, 0o777)
+	r.cacheMount = d
+	return true
+}
+
+// resizeCache sets the size of the cache file system (bytes, rounded up to pages by the kernel).
+func (r *profRig) resizeCache(bytes int64) error {
+	if r.cacheMount == "" {
+		return fmt.Errorf("cache not mounted")
+	}
+	return syscall.Mount("tmpfs", r.cacheMount, "tmpfs", syscall.MS_REMOUNT, fmt.Sprintf("size=%d,mode=0777", bytes))
+}
+
+func (r *profRig) env(path, mode string) []string {
+	e := []string{"PATH=" + path, "HOME=" + r.home, "USER=verif", "FAKEGO_LISTING=" + r.listing, "FAKEGO_MODE=" + mode}
+	if r.tmpdir != "" {
+		e = append(e, "TMPDIR="+r.tmpdir)
+	}
+	return e
 }
 
 func newProfRig(goarch string) (*profRig, error) {
@@ -83,7 +133,17 @@ func newProfRig(goarch string) (*profRig, error) {
 	return r, nil
 }
 
-func (r *profRig) close() { os.RemoveAll(r.dir) }
+func (r *profRig) close() {
+	if r.cacheMount != "" {
+		if err := syscall.Unmount(r.cacheMount, 0); err != nil {
+			syscall.Unmount(r.cacheMount, syscall.MNT_DETACH)
+		}
+	}
+	os.RemoveAll(r.dir)
+	if r.tmpdir != "" {
+		os.RemoveAll(r.tmpdir)
+	}
+}
 
 // freshHome switches to a new, empty HOME (cold cache).
 func (r *profRig) freshHome() {
@@ -115,6 +175,12 @@ func (r *profRig) cacheFiles() []string {
 	}
 	sort.Strings(out)
 	return out
+}
+
+func (r *profRig) clearCache() {
+	for _, f := range r.cacheFiles() {
+		os.RemoveAll(f)
+	}
 }
 
 func (r *profRig) cacheSize() int64 {
@@ -156,7 +222,7 @@ func (r *profRig) runLimited(mode string, kill bool, fsize int64, args ...string
 	if mode == "" {
 		path = r.nogo
 	}
-	cmd.Env = []string{"PATH=" + path, "HOME=" + r.home, "USER=verif", "FAKEGO_LISTING=" + r.listing, "FAKEGO_MODE=" + mode}
+	cmd.Env = r.env(path, mode)
 	cmd.Dir = r.dir
 	cmd.SysProcAttr = &syscall.SysProcAttr{Credential: &syscall.Credential{Uid: profilerUid, Gid: profilerUid}, Setpgid: true}
 	var so, se bytes.Buffer
@@ -310,7 +376,7 @@ func (r *profRig) start(mode string, args ...string) (*profAsync, error) {
 	ctx, cancel := context.WithTimeout(context.Background(), 30*time.Second)
 	full := append(append([]string{}, args...), r.binary)
 	cmd := exec.CommandContext(ctx, r.profiler, full...)
-	cmd.Env = []string{"PATH=" + r.bindir, "HOME=" + r.home, "USER=verif", "FAKEGO_LISTING=" + r.listing, "FAKEGO_MODE=" + mode}
+	cmd.Env = r.env(r.bindir, mode)
 	cmd.Dir = r.dir
 	cmd.SysProcAttr = &syscall.SysProcAttr{Credential: &syscall.Credential{Uid: profilerUid, Gid: profilerUid}, Setpgid: true}
 	a := &profAsync{cmd: cmd, so: &bytes.Buffer{}, se: &bytes.Buffer{}, cancel: cancel}
